@@ -529,13 +529,58 @@ func runC07(c *Ctx) {
 						fromCT = true
 					}
 				}
+				// the value may be a parameter of an accessor helper (refactoring B24_r1:
+				// restSetHTTPBody(msg, op.reqContentType, src)): judged at the call sites that
+				// pass the request's content type
+				factBlocks := []*ssa.BasicBlock{call.Block()}
+				if !fromCT {
+					for _, l := range Origins(cc.Args[1]) {
+						var prm *ssa.Parameter
+						if l.Kind == "call" {
+							for _, a := range l.Call.Common().Args {
+								if q, ok := strip(a).(*ssa.Parameter); ok {
+									prm = q
+								}
+							}
+						} else if l.Kind == "param" {
+							prm, _ = l.V.(*ssa.Parameter)
+						}
+						if prm == nil {
+							continue
+						}
+						idx := -1
+						for i, q := range fn.Params {
+							if q == prm {
+								idx = i
+							}
+						}
+						for _, e := range p.Callers(fn) {
+							if idx < 0 || e.Kind != "static" || e.Site == nil || idx >= len(e.Site.Common().Args) {
+								continue
+							}
+							for _, l2 := range Origins(e.Site.Common().Args[idx]) {
+								if l2.Kind == "load" && l2.Field == ctF {
+									if !fromCT {
+										factBlocks = nil
+									}
+									fromCT = true
+									factBlocks = append(factBlocks, e.Site.Block())
+								}
+							}
+						}
+					}
+				}
 				if !fromCT {
 					continue
 				}
 				nCT++
 				// no dominating fact may exclude the empty body
 				excluded := ""
-				for _, f := range p.FactsAtInter(call.Block()) {
+				var allFacts []Fact
+				for _, fb := range factBlocks {
+					allFacts = append(allFacts, p.FactsAtInter(fb)...)
+				}
+				for _, f := range allFacts {
 					cmp, ok := f.AsCmp()
 					if !ok {
 						continue
